@@ -3,7 +3,7 @@ import sys, os, json, time, subprocess, argparse, random, importlib, traceback, 
 
 VERIF = os.path.dirname(os.path.dirname(os.path.abspath(__file__)))
 PY = os.path.join(VERIF, ".venv", "bin", "python")
-EVID = os.path.join(VERIF, "evidence")
+EVID = os.environ.get("VF_EVID") or os.path.join(VERIF, "evidence")   # VF_EVID: mutation trials must not overwrite the real evidence
 STUBS = [
     "S-FFI: libgraphqlparser.so is absent in this sandbox; the C parser is replaced by vf/gqlfront.py (validated by the repo's functional suite, `vcheck ffi-selftest`); everything after _parse_to_json_ast is the real code",
     "S-LOOP: asyncio selector loop replaced by vf/miniloop.py (FIFO ready queue, real Task/Future/gather); pending resolver gates are released in a solver-chosen order",
